@@ -402,12 +402,17 @@ def sense(prog, run):
         # canonical names: first parameter is the value table, the rest thresholds
         ren = {}
         std = {"HC_damp": ["damp", "max_damp"], "HC_phi_comp": ["phi", "mpc_lim", "mpd_lim"], "HC_cov": ["Fn_cov", "max_cov"]}[name]
-        for a, b in zip(pos, std):
-            ren["param:" + a] = "param:" + b
+        if set(std) <= set(pos):
+            pass                    # the parameters carry the canonical names (in whatever order): nothing to rename
+        else:
+            for a, b in zip(pos, std):
+                ren["param:" + a] = "param:" + b
         found = set()
         nodes = {}
         for n in ast.walk(fi.node):
             if isinstance(n, ast.Compare):
+                if all(isinstance(o, (ast.Is, ast.IsNot)) for o in n.ops) or any(isinstance(x_, ast.Constant) and x_.value is None for x_ in [n.left] + n.comparators):
+                    continue            # `limit is None` (criterion switched off): not a comparison of values
                 c = _canon(prog, fi, n, pos)
                 if c is None:
                     continue
